@@ -83,6 +83,12 @@ chk("C02", "venum",
     "Trusted: x/crypto/ssh and crypto/x509 decoders. The Kerberos SAN is decoded and a malformed SAN (long realm/user names) is recorded as an observation, not a violation: the statement does not name it. Quick tier rotates extension sets across deployments; thorough runs all.",
     "DESIGN.md 3 C02")
 
+chk("C06", "venum",
+    "exhaustive enumeration of routes (extracted from main() at check time) x credential shapes (alone and paired with another user's cookie) x HTTP methods x origins on the real service mux, with row-level before/after digests of both databases, challenge/push maps, fake-service ground truth and server-signed material in the response",
+    "Every route registered on the service multiplexer of the current source x ~50 credential shapes (none, basic-auth variants, cookies with one claim wrong each and signed with the real key, key/algorithm attacks, keymaster client certificates incl. deny-listed and expired, IP-restricted certificates inside/outside their netblocks with realistic verified chains, operator-CA certificate), each alone and combined with a second user's valid cookie, x six HTTP methods x six Origin/Referer situations, with a well-formed body per route. Oracle: (1) no valid credential => no admission and no protected effect (rows of either database, 2FA/hardware-token transaction state, VIP pushes, server-signed material); (2) an admitted identity must be the subject of a presented credential of a kind and level the endpoint's class accepts (policy table by handler name; unknown handlers get the floor only and are listed); (3) a state change with a foreign Origin/Referer is a violation; (4) effects (changed rows, upgraded cookie subject) fall on the admitted identity only.",
+    "Trusted: the policy table (specification side). 7 cross-site GET state changes are recorded as known findings (keys C06|cross-site-state-change|<handler>|GET). Okta handlers are registered but answer 'misconfiguration' without an Okta backend.",
+    "DESIGN.md 3 C06")
+
 NOT_YET = {
 }
 
